@@ -2712,7 +2712,8 @@ static Type *struct_decl(Token **rest, Token *tok) {
       bits += mem->ty->size * 8;
     }
 
-    if (!ty->is_packed && ty->align < mem->align)
+    // Unnamed bit-fields do not affect the alignment (psABI 3.1.2).
+    if (!ty->is_packed && ty->align < mem->align && (mem->name || !mem->is_bitfield))
       ty->align = mem->align;
   }
 
@@ -2732,6 +2733,12 @@ static Type *union_decl(Token **rest, Token *tok) {
   // are already initialized to zero. We need to compute the
   // alignment and the size though.
   for (Member *mem = ty->members; mem; mem = mem->next) {
+    if (mem->is_bitfield && !mem->name) {
+      // An unnamed bit-field only reserves its bits.
+      if (ty->size < (mem->bit_width + 7) / 8)
+        ty->size = (mem->bit_width + 7) / 8;
+      continue;
+    }
     if (!ty->is_packed && ty->align < mem->align)
       ty->align = mem->align;
     if (ty->size < mem->ty->size)
